@@ -1,4 +1,4 @@
-import CookModel.Analysis.FrontMatter
+import CookModel.Analysis.FrontMatterCore
 import CookModel.Lemmas.Lexer
 import CookModel.Lemmas.Text
 import CookModel.Lemmas.Spans
@@ -442,6 +442,78 @@ theorem fmx_process_err {α : Type} [Arith α] (fe : Env α) (yaml : Text) (loc 
     processFrontmatter fe yaml =
       ⟨none, none, [⟨.error, .analysis, "yaml-error", posLabel yaml.span.start loc⟩]⟩ := by
   unfold processFrontmatter; rw [hd]
+
+/-! ### the removals: which entries stay in the mapping -/
+
+/-- the entries the validator `f` leaves in the mapping (`include` of the `n`-th call) -/
+def keptBy (f : Nat → Y → Y → Verdict) : Nat → List (Y × Y) → List (Y × Y)
+  | _, [] => []
+  | n, kv :: rest => if (f n kv.1 kv.2).incl then kv :: keptBy f (n + 1) rest else keptBy f (n + 1) rest
+
+section
+variable {α : Type} [Arith α]
+
+theorem fmx_stdEntry_calls (fe : Env α) (yamlStart : Nat) (text : Str) (acc : Acc) (key value : Y) :
+    (stdEntry fe yamlStart text acc key value).calls = acc.calls := by
+  unfold stdEntry
+  split
+  · rfl
+  · split <;> rfl
+
+theorem fmx_foldl_kept (fe : Env α) (f : Nat → Y → Y → Verdict) (hv : fe.validator = some f)
+    (yamlStart : Nat) (text : Str) (m : List (Y × Y)) (acc : Acc) :
+    (m.foldl (entry fe yamlStart text) acc).kept = acc.kept ++ keptBy f acc.calls m := by
+  induction m generalizing acc with
+  | nil => simp [keptBy]
+  | cons kv rest ih =>
+    simp only [List.foldl_cons]
+    rw [ih]
+    unfold entry
+    rw [hv]
+    simp only
+    by_cases hi : (f acc.calls kv.1 kv.2).incl = true
+    · by_cases hr : (f acc.calls kv.1 kv.2).runStd = true
+      · simp [hi, hr, keptBy, fmx_stdEntry_calls, (fmx_stdEntry_spec fe yamlStart text _ kv.1 kv.2).2]
+      · simp [hi, hr, keptBy]
+    · simp [hi, keptBy]
+
+/-- **after the exclusions**: the mapping `process_frontmatter` stores is the decoded one without the
+    entries for which the validator cleared `include` (in their order); without a validator, all of it -/
+theorem fmx_entries_kept (fe : Env α) (yamlStart : Nat) (text : Str) (m : List (Y × Y)) :
+    (entries fe yamlStart text m).kept =
+      match fe.validator with
+      | none => m
+      | some f => keptBy f 0 m := by
+  cases hv : fe.validator with
+  | none => exact (fmx_entries_noValidator fe hv yamlStart text m).2
+  | some f =>
+    unfold entries
+    rw [fmx_foldl_kept fe f hv]
+    simp
+
+end
+
+theorem fmx_timeLoc_isSome (text : Str) (kept : List (Y × Y)) (k : SM.StdKey) :
+    (timeLoc text kept k).isSome = true ↔
+      (hasKey kept k = true ∧ (yamlFindKeyPosition text k.canon).isSome = true) := by
+  unfold timeLoc
+  by_cases h : hasKey kept k = true <;> simp [h]
+
+theorem fmx_mapGet_mem {k : Str} {m : List (Y × Y)} {v : Y} (h : SM.mapGet k m = some v) :
+    (Y.str k, v) ∈ m := by
+  induction m with
+  | nil => simp [SM.mapGet] at h
+  | cons e rest ih =>
+    obtain ⟨ek, ev⟩ := e
+    cases ek with
+    | str s =>
+      unfold SM.mapGet at h
+      split at h
+      · rename_i hs
+        simp only [Option.some.injEq] at h
+        simp [hs, h]
+      · exact List.mem_cons_of_mem _ (ih h)
+    | _ => unfold SM.mapGet at h; exact List.mem_cons_of_mem _ (ih h)
 
 end FM
 end Cook
